@@ -18,6 +18,8 @@ SCOPE = (f"{A}.features", f"{A}.lmeasure", f"{A}.sholl", f"{A}.volume", f"{A}.fe
 
 
 def run(ctx, col, tier):
+    from ..rules import negidx as _negidx
+    _negidx.run(ctx, col, ('swcgeom.analysis.features', 'swcgeom.analysis.lmeasure', 'swcgeom.analysis.sholl', 'swcgeom.analysis.feature_extractor', 'swcgeom.core.tree', 'swcgeom.core.node', 'swcgeom.core.path', 'swcgeom.core.branch', 'swcgeom.transforms.tree'))
     from ..rules import smalllints as _small
     _small.run_atol(ctx, col, ('swcgeom.utils.solid_geometry', 'swcgeom.utils.volumetric_object', 'swcgeom.analysis.volume'))
     col.rule("R-GEO", "geometric typing of every observable (abstract interpretation over kind x "
